@@ -6,7 +6,8 @@
 //!   K1  a mutating call (set_mask / remove / remove_move) while a promotion destination is
 //!       partially yielded, unless the call leaves that destination the first one the iterator
 //!       meets among the promotions (then the promotion cursor still belongs to it and the
-//!       contract is demanded; decided on a clone of the iterator through the read-only hooks);
+//!       contract is demanded; decided by trying the call on a clone and iterating the clone up to
+//!       its first promotion move);
 //!   K2  remove_move of a promotion move.
 //! The drivers track "partially yielded" on the abstract level (which promotion moves of a
 //! (from,to) group were yielded), not by looking into the iterator.
@@ -87,12 +88,12 @@ impl Inst {
     }
 
     /// would this mutating call keep the promotion cursor on its destination?  (K1 is the class of
-    /// calls for which it would not.)  The call is tried on a clone; the clone's entry list and
-    /// cursor are read through the hooks: the first promotion entry from the cursor on that has a
-    /// destination under the mask must be the source in progress, its lowest such destination the
-    /// destination in progress.
+    /// calls for which it would not.)  The call is tried on a clone and the clone is iterated up to
+    /// its first promotion move: the cursor is still on its destination iff that move belongs to
+    /// the destination in progress.  (Nothing is assumed about the order in which the iterator
+    /// visits entries or destinations.)
     fn keeps_cursor(&self, op: &Op) -> bool {
-        let Some((src, dest, done)) = self.group_in_progress() else { return true };
+        let Some((src, dest, _done)) = self.group_in_progress() else { return true };
         let mut g = self.gen.clone();
         match op {
             Op::SetMask(m) => {
@@ -111,12 +112,11 @@ impl Inst {
             }
             _ => return true,
         }
-        let (idx, _, mask) = g.verif_cursor();
-        let _ = done;
-        for (s, d, promo) in g.verif_entries().into_iter().skip(idx) {
-            let under = bb_list(d & mask);
-            if promo && !under.is_empty() {
-                return s.to_u8() == src && under[0] == dest;
+        for _ in 0..300 {
+            match g.next() {
+                None => return false,
+                Some(m) if m.piece.is_some() => return m.source.to_u8() == src && m.dest.to_u8() == dest,
+                Some(_) => {}
             }
         }
         false
